@@ -104,48 +104,124 @@ def rules(ctx, tier):
     return out
 
 
-def ack_applied(ctx, r, must, root):
+def _ok_exits(ctx, must, body, depth=0):
+    """[(must set, may set, reported value leaves, where, body of the leaves)] of the Ok exits of a body, relative to its
+    entry.  An exit that forwards the whole Result of a crate-private helper with the same return type is replaced by
+    that helper's own Ok exits (`remove_keys(keys)` answers Ok(0) when there is nothing to do and Ok(n) after the apply:
+    two exits, judged one by one)."""
     prog = ctx.prog
-    must.summarize(root)
-    rf = must.rf(root)
-    IN = must.rel_in[root.path]
-    mayIN = ctx.may.solve_body(root)
-    sl = Slicer(ctx.world, root)
-    n = 0
+    must.summarize(body)
+    rf = must.rf(body)
+    IN = must.rel_in[body.path]
+    mayIN = ctx.may.solve_body(body)
+    sl = Slicer(ctx.world, body)
+    out = []
     for bb, kind in sorted(rf.forwarded.items()):
         if kind == "err" or bb not in IN or IN[bb] is None:
             continue
         S = set(IN[bb])
         M = set(mayIN.get(bb, ()))
         val = None
+        where = "%s:%d" % (body.file, body.blocks[bb]["span"]["line"])
         if isinstance(kind, tuple):
             o = kind[1]
-            site = Site(root, o, root.blocks[o]["term"])
+            site = Site(body, o, body.blocks[o]["term"])
+            tgt = prog.local_target(site)
+            same_ty = tgt is not None and prog.ty_str(tgt.locals[0]) == prog.ty_str(body.locals[0])
+            mapped = None
+            if tgt is not None and not same_ty and bb != o:
+                mapped = _ok_mapper(ctx, body, bb)      # `helper(..).map(|n| n != 0)`: the Ok value goes through a closure
+            if tgt is not None and depth < 2 and not tgt.reachable and not tgt.is_closure and \
+                    (same_ty or mapped is not None) and o in IN and IN[o] is not None:
+                S0 = set(IN[o])
+                M0 = set(mayIN.get(o, ()))
+                for (S2, M2, val2, where2, b2) in _ok_exits(ctx, must, tgt, depth + 1):
+                    S2i = set(x for x in (ctx._subst(e, site, tgt) for e in S2) if x is not None)
+                    M2i = set(x for x in (ctx._subst(e, site, tgt) for e in M2) if x is not None)
+                    if mapped is not None:
+                        v3 = mapped(val2)
+                        out.append((S0 | S2i, M0 | M2i, v3, where, body if v3 is not None else b2))
+                    else:
+                        out.append((S0 | S2i, M0 | M2i, val2, where2, b2))
+                continue
             cs = must._callee_summaries(site)
             if cs:
                 S |= set(cs[1])
             M |= set(ctx.may.site_events(site))
-            rts = prog.ty_str(root.locals[0])
+            rts = prog.ty_str(body.locals[0])
             if rts.startswith(("std::result::Result<usize", "std::result::Result<u64", "std::result::Result<bool")):
                 # the whole Result is forwarded from a callee: what it reports is what the callee returns on Ok
                 from ..prov import expand_down
-                dsl = Slicer(ctx.world, root, skip_err=True)
-                val = expand_down(ctx.world, root, dsl.leaves_of_place(site.term["dest"]))
+                dsl = Slicer(ctx.world, body, skip_err=True)
+                val = expand_down(ctx.world, body, dsl.leaves_of_place(site.term["dest"]))
                 val = set(x for x in val if not (x[0] == "call" and (x[1] or "").endswith("from_residual")))
         else:
-            for s in root.stmts(bb):
+            for s in body.stmts(bb):
                 if s["k"] == "assign" and s["lhs"]["l"] == 0 and s["rv"]["k"] == "agg" and s["rv"]["ops"]:
                     val = sl.leaves_of_operand(s["rv"]["ops"][0])
+        out.append((S, M, val, where, body))
+    return out
+
+
+def _ok_mapper(ctx, body, bb):
+    """`result.map(closure)` as the forwarding step: a function from the leaves of the helper's Ok value to the leaves
+    of the mapped value - decided when the closure compares its argument with a constant and the value is a constant
+    (`|n| n != 0` on `Ok(0)` is `false`); None (unknown, nothing is claimed about the reported value) otherwise.
+    Returns None if the block is not such a `map`."""
+    prog = ctx.prog
+    t = body.blocks[bb]["term"]
+    if t["k"] != "call" or term_path(t) != "std::result::Result::map" or len(t["args"]) < 2:
+        return None
+    pl = place_of(t["args"][1])
+    cd = prog.closure_def_of_type(body.locals[pl["l"]]) if pl is not None and not pl["p"] else None
+    cb = prog.bodies.get(cd) if cd else None
+    if cb is None:
+        return None
+    cmpop = None
+    for x in cb.normal_blocks():
+        for st in cb.stmts(x):
+            if st["k"] == "assign" and st["rv"]["k"] == "binop" and st["rv"]["op"] in ("Eq", "Ne", "Gt", "Lt", "Ge", "Le"):
+                a, b_ = st["rv"]["a"], st["rv"]["b"]
+                ca = a.get("const", {}).get("v") if "const" in a else None
+                cbv = b_.get("const", {}).get("v") if "const" in b_ else None
+                if isinstance(cbv, int) and ca is None:
+                    cmpop = (st["rv"]["op"], cbv)
+
+    def mapper(val):
+        if cmpop is None or not val:
+            return None
+        consts = [l[1] for l in val if l[0] == "const"]
+        if len(consts) != len(val) or not all(isinstance(c, int) for c in consts) or len(set(consts)) != 1:
+            return None
+        v = consts[0]
+        op, k = cmpop
+        res = {"Eq": v == k, "Ne": v != k, "Gt": v > k, "Lt": v < k, "Ge": v >= k, "Le": v <= k}[op]
+        return {("const", 1 if res else 0, ())}
+    return mapper
+
+
+def ack_applied(ctx, r, must, root):
+    prog = ctx.prog
+    sl = Slicer(ctx.world, root)
+    n = 0
+    for (S, M, val, where, vb) in _ok_exits(ctx, must, root):
+        if vb is not root and val:
+            # leaves of a helper's exit value, seen from the entry point: parameters become the call's arguments
+            from ..prov import _tag
+            val = set(_tag(l, vb) for l in val)
         names = sem_set(S)
         mnames = sem_set(e for e in M if ctx._concrete(e))
         applied = "APPLIED" in names
         clean = not (mnames & {"INDEX_MUTATE", "WAL_WRITE", "BLOB_UNLINK"})
         n += 1
-        where = "%s:%d" % (root.file, root.blocks[bb]["span"]["line"])
-        r.check(applied or clean, "ok-exit:%s" % root.path.split("::")[-1], root,
+        # an entry point that reports nothing (`Result<()>`: a put) cannot say "nothing was done": its Ok means applied
+        unit = prog.ty_str(root.locals[0]).startswith("std::result::Result<(),")
+        r.check(applied or (clean and not unit), "ok-exit:%s" % root.path.split("::")[-1], root,
                 "Ok exit of %s at %s: %s" % (root.path, where, "applied" if applied else "nothing touched"),
-                "Ok exit of %s at %s is reached on paths where the op may have been logged/applied but is not "
-                "guaranteed to be" % (root.path, where), where)
+                ("Ok exit of %s at %s is reached without the operation having been applied: the call reports success "
+                 "and has no way to say that nothing was done" % (root.path, where)) if (clean and unit and not applied) else
+                ("Ok exit of %s at %s is reached on paths where the op may have been logged/applied but is not "
+                 "guaranteed to be" % (root.path, where)), where)
         # reported value
         if val:
             consts = [l[1] for l in val if l[0] == "const"]
@@ -164,29 +240,46 @@ def ack_applied(ctx, r, must, root):
             elif any(l[0] == "call" and l[1].endswith("Vec::len") for l in val):
                 # the count is the length of the vector handed to the apply call
                 lens = [l for l in val if l[0] == "call" and l[1].endswith("Vec::len")]
-                t = root.blocks[lens[0][2]]["term"]
-                V = ctx.world.borrowed_local(root, t["args"][0])
+                # the `len` call may sit in a private helper that gets the list as a parameter and hands it to the apply
+                # call (`remove_keys(keys, ..)`): aliases and the hand-over are then judged in the helper, the origin of
+                # the list in the entry point
+                hb = prog.bodies[lens[0][2][0]] if isinstance(lens[0][2], tuple) else root
+                hbb = lens[0][2][1] if isinstance(lens[0][2], tuple) else lens[0][2]
+                t = hb.blocks[hbb]["term"]
+                V = ctx.world.borrowed_local(hb, t["args"][0])
                 alias = {V}
                 changed = True
                 while changed:
                     changed = False
-                    for l2, defs in root.assignments().items():
+                    for l2, defs in hb.assignments().items():
                         for (dbb, j, rv) in defs:
                             if j != "term" and rv["k"] == "use":
                                 pl = place_of(rv["op"])
                                 if pl is not None and not pl["p"] and pl["l"] in alias and l2 not in alias:
                                     alias.add(l2)
                                     changed = True
+                                if pl is not None and not pl["p"] and l2 in alias and pl["l"] not in alias:
+                                    alias.add(pl["l"])
+                                    changed = True
                 handed = False
-                for s in root.calls():
+                for s in hb.calls():
                     if "INDEX_MUTATE" in sem_set(ctx.may.site_events(s)):
                         for a in s.term["args"]:
                             pl = a.get("move")
                             if pl is not None and not pl["p"] and pl["l"] in alias:
                                 handed = True
                 is_read = lambda evs: "INDEX_READ" in sem_set(evs)
-                collected = derives_from(ctx, root, sl, {"move": {"l": V, "p": []}}, is_read)
-                if not collected:
+                if hb is not root:
+                    collected = False
+                    pars = [l_ for l_ in alias if 1 <= l_ <= hb.argc]
+                    for cs_ in root.calls():
+                        tg_ = prog.local_target(cs_)
+                        if tg_ is not None and tg_.path == hb.path and pars:
+                            collected = all(p_ - 1 < len(cs_.term["args"]) and derives_from(
+                                ctx, root, sl, cs_.term["args"][p_ - 1], is_read) for p_ in pars)
+                else:
+                    collected = derives_from(ctx, root, sl, {"move": {"l": V, "p": []}}, is_read)
+                if not collected and hb is root:
                     # filled by a loop: every push into the list takes a value read from the index
                     fills = [s for s in root.calls() if (s.path or "").split("::")[-1] in ("push", "extend", "insert", "append",
                                                                                            "extend_from_slice")
@@ -350,15 +443,77 @@ def surface_agrees(ctx, r):
                 continue
             e = cfgutil.switch_edges(V, sw)
             listed = [v for v in e if v != "otherwise"]
+            # `lookup?` tests ControlFlow<Option<Infallible>, T>: Continue (0) is "found"; a `match` on the Option itself
+            # has Some = 1
+            dty = prog.types[ctx.world._place_ty(V, c[1])]
+            found_val = 0 if dty.get("def") == "std::ops::ControlFlow" else 1
             for v, t in e.items():
-                if t is None:
+                if t is None or V.blocks[t]["term"]["k"] == "unreachable":
                     continue
                 if v == "otherwise":
                     v = 1 - listed[0] if listed in ([0], [1]) else None
-                if v == 1:
+                if v == found_val:
                     some_edges.append((sw, t))
-                elif v == 0:
+                elif v == 1 - found_val:
                     none_edges.append((sw, t))
+        # Options derived from the lookup: `let found = helper(..)` where the helper answers Some(..) only behind the
+        # found edge and None (or `?`) only behind the not-found edge - a `match found` is then a test of the lookup
+        def option_defs(l, depth=0, seen=None):
+            """[(block, 'some'|'none'|'?')] of the values that reach Option-typed local l."""
+            seen = seen if seen is not None else set()
+            if l in seen or depth > 8:
+                return [(None, "?")]
+            seen.add(l)
+            out_ = []
+            defs_ = V.assignments().get(l, [])
+            if not defs_:
+                return [(None, "?")]
+            for (dbb, j, rv) in defs_:
+                if j == "term":
+                    p_ = term_path(rv) or ""
+                    if p_.endswith("FromResidual::from_residual") and prog.adt_of(V.locals[l])[0] == "std::option::Option":
+                        out_.append((dbb, "none"))
+                    else:
+                        out_.append((dbb, "?"))
+                elif rv["k"] == "agg" and rv.get("def") == "std::option::Option":
+                    out_.append((dbb, "some" if rv.get("vn") == "Some" else "none"))
+                elif rv["k"] == "use" and place_of(rv["op"]) is not None and not place_of(rv["op"])["p"]:
+                    out_ += option_defs(place_of(rv["op"])["l"], depth + 1, seen)
+                else:
+                    out_.append((dbb, "?"))
+            return out_
+        changed = True
+        rounds = 0
+        judged_sw = set(sw for sw, _t in some_edges + none_edges)
+        while changed and rounds < 4:
+            changed = False
+            rounds += 1
+            for sw in V.normal_blocks():
+                if sw in judged_sw:
+                    continue
+                c = cfgutil.switch_condition(V, sw)
+                if not c or c[0] != "discr" or c[1]["p"]:
+                    continue
+                if prog.adt_of(V.locals[c[1]["l"]])[0] != "std::option::Option":
+                    continue
+                od = option_defs(c[1]["l"])
+                if not od or any(k == "?" or bb_ is None for bb_, k in od):
+                    continue
+                if all((k == "some" and some_edges and cfgutil.edges_dominate(V, some_edges, bb_)) or
+                       (k == "none" and none_edges and cfgutil.edges_dominate(V, none_edges, bb_)) for bb_, k in od):
+                    e = cfgutil.switch_edges(V, sw)
+                    listed = [v for v in e if v != "otherwise"]
+                    for v, t in e.items():
+                        if t is None or V.blocks[t]["term"]["k"] == "unreachable":
+                            continue
+                        if v == "otherwise":
+                            v = 1 - listed[0] if listed in ([0], [1]) else None
+                        if v == 1:
+                            some_edges.append((sw, t))
+                        elif v == 0:
+                            none_edges.append((sw, t))
+                    judged_sw.add(sw)
+                    changed = True
         n_some = n_none = 0
         # locals whose value is moved, unchanged, into the view's return place
         ret = {0}
